@@ -2,7 +2,7 @@
 indexes consistent (C03, C04, C05, C06, C12, C16 primitives)."""
 import z3
 from pyvc.contracts import Contract
-from pyvc.core import SV, Val, VNone, VRef, is_VNone, is_VRef, ref, fresh, Int, SetSort
+from pyvc.core import SV, Val, VNone, VRef, VStr, is_VNone, is_VRef, ref, fresh, Int, SetSort
 from specs import forest, cache as K
 from specs.wf import WF, attach_ok, focus as wf_focus
 
@@ -31,6 +31,17 @@ class OwningSetOp(Contract):
 
     def owner(self, c, a):
         return c.get("_node", a.self.t)
+
+    def before_call(self, callee, c, callee_args):
+        if "_remove_from_uuid_cache" in callee or "_add_to_uuid_cache" in callee:
+            # the subtree being (un)registered was attached as a whole: all its nodes had the IR of its root
+            c0 = c.eng.cur_c0
+            v = c.eng.cur_args.v.t
+            n = fresh("n", Int)
+            return {"subtree_same_ir": z3.ForAll([n], z3.Implies(
+                K.in_subtree(c0, v, n, self.child_cls), K.ir_of(c0, n) == K.ir_of(c0, v)),
+                patterns=[K.ir_of(c0, n), K.uuid_of(c0, n)])}
+        return {}
 
     def pre(self, c, a):
         w, v = a.self.t, a.v.t
@@ -193,6 +204,17 @@ class BlockSetUpdate(Contract):
     def selects(self, self_cls, args, kwargs=None):
         return True
 
+    def bind(self, eng, args, kwargs, st):
+        a = super().bind(eng, args, kwargs, st)
+        its = a["iterables"]
+        if its.k != "tuple" or len(its.x) != 1:
+            from pyvc.core import Unsupported
+            raise Unsupported("_BlockSet.update with %s iterables (contract covers exactly one; see F-C16-2)"
+                              % (len(its.x) if its.k == "tuple" else "?"))
+        from pyvc.core import sv_tuple
+        a["iterables"] = sv_tuple([eng.as_set(its.x[0], st)])
+        return a
+
     @staticmethod
     def S(a):
         return a.iterables.x[0].t
@@ -280,3 +302,41 @@ def register(reg):
     _register_prev2(reg)
     reg.add(OwningSetOp("byteinterval.py", "ByteInterval._BlockSet", "ByteInterval", "ByteBlock", "_byte_interval",
                         "blocks", "add"))
+
+
+# ------------------------------------------------------------------------------------------------ module node sets
+class NodeSetOp(OwningSetOp):
+    """Module._NodeSet.add / .discard, one instantiation per field (sections, symbols, proxies)."""
+
+    def __init__(self, field, child_cls, op):
+        super().__init__("module.py", "Module._NodeSet", "Module", child_cls, "_module", field, op)
+        self.variant = field
+        self.field = field
+        self.modifies = ("SetWrapper._data", "_module", "_interval_events", "_local_uuid_cache",
+                         "_symbol_name_index", "_symbol_referent_index")
+
+    def selects(self, self_cls, args, kwargs=None):
+        c = args[1].cls if len(args) > 1 else None
+        ci = {"sections": ("Section",), "symbols": ("Symbol",), "proxies": ("ProxyBlock",)}[self.field]
+        return c in ci
+
+    def pre(self, c, a):
+        out = super().pre(c, a)
+        out["field_name"] = c.get("_field", a.self.t) == VStr(z3.StringVal(self.field))
+        return out
+
+    def post(self, c0, c1, a, res):
+        out = super().post(c0, c1, a, res)
+        n = fresh("n", Int)
+        # _module is shared by three child kinds: only v's pointer changes
+        return out
+
+
+_register_prev3 = register
+
+
+def register(reg):
+    _register_prev3(reg)
+    for field, cls in (("sections", "Section"), ("symbols", "Symbol"), ("proxies", "ProxyBlock")):
+        for op in ("add", "discard"):
+            reg.add(NodeSetOp(field, cls, op))
